@@ -587,11 +587,34 @@ class Desugarer:
             B = Builder(raw, t["span"])
             entry = self.inline_body(B, callee, list(t["args"]), t["dest"]["l"], t["target"], stack + (callee.key,))
             blk["term"] = dict(B.goto(entry), inlined_call=callee.key)
+        if raw["desugared"] or raw["inlined"]:
+            self.split_bool_results()
         inline.thread_jumps(raw)
         body = mir.Body(raw, self.root.crate, self.root.factfile)
         body.inlined_callees = raw["inlined"]
         body.desugared = raw["desugared"]
         return body
+
+    def split_bool_results(self):
+        """`_0 = move b` (a boolean that was computed earlier) becomes `if b { _0 = true } else { _0 = false }`: the
+        decision then shows in the control flow like every other one"""
+        raw = self.raw
+        if str(raw["locals"][0]["ty"]) != "bool":
+            return
+        for blk in list(raw["blocks"]):
+            if blk.get("cleanup") or not blk["stmts"] or blk["term"]["k"] not in ("goto", "return"):
+                continue
+            st = blk["stmts"][-1]
+            if st.get("k") != "assign" or st["place"]["l"] != 0 or st["place"]["p"] or st["rv"]["k"] != "use":
+                continue
+            o = st["rv"]["op"]
+            if o.get("k") not in ("copy", "move") or o["place"]["p"]:
+                continue
+            B = Builder(raw, blk["term"]["span"])
+            tb = B.block([B.assign(0, B.use(B.const_bool(True)))], copy.deepcopy(blk["term"]))
+            fb = B.block([B.assign(0, B.use(B.const_bool(False)))], copy.deepcopy(blk["term"]))
+            blk["stmts"] = blk["stmts"][:-1]
+            blk["term"] = B.switch_bool(dict(o, k="copy"), tb, fb)
 
 
 def no_functions(root_key, callee, depth):
